@@ -37,7 +37,9 @@ fn safe_join(root: &Path, rel: &str) -> Option<PathBuf> {
 
 fn tmp_of(dst: &Path) -> PathBuf {
     let mut s = dst.as_os_str().to_owned();
-    s.push(".copia-tmp");
+    // Unique per server process: concurrent `serve` processes putting the same path must
+    // never share (and truncate, and rename away) one staging file.
+    s.push(format!(".{}.copia-tmp", std::process::id()));
     PathBuf::from(s)
 }
 
